@@ -48,7 +48,7 @@ def _log(obj, phase):
 
 def mk_classes(spec):
     @vsc.randobj
-    class Leaf(object):
+    class LeafBase(object):
         def __init__(self):
             self.x = vsc.rand_bit_t(2)
             self.y = vsc.rand_bit_t(2)
@@ -56,6 +56,12 @@ def mk_classes(spec):
         @vsc.constraint
         def cxy(self):
             self.x < self.y
+
+    @vsc.randobj
+    class Leaf(LeafBase):
+        """the callbacks are defined by the derived class only"""
+        def __init__(self):
+            super().__init__()
 
         def pre_randomize(self):
             _log(self, "pre")
@@ -94,6 +100,8 @@ def mk_classes(spec):
             self.s2 = vsc.rand_attr(S()) if spec["m2"] else vsc.attr(S())
             if lst == "rand":
                 self.l = vsc.rand_list_t(Leaf())
+            elif lst == "randsz":
+                self.l = vsc.randsz_list_t(Leaf())
             elif lst == "plain":
                 self.l = vsc.list_t(Leaf())
             if lst:
@@ -117,6 +125,15 @@ def mk_classes(spec):
                     self.s1.s.x < self.s2.s.x
                 elif c == "K6":
                     self.l[0].y != self.l[1].y
+                elif c == "K7":
+                    # a non-random field (possibly assigned by pre_randomize) decides a branch inside a foreach
+                    with vsc.foreach(self.l, it=True) as it:
+                        with vsc.if_then(self.n == 0):
+                            it.y == 3
+                        with vsc.else_then:
+                            it.y != 3
+                elif c == "K8":
+                    self.l.size == 2
 
         def pre_randomize(self):
             if pre_n is not None:
@@ -159,7 +176,7 @@ def objects(spec):
             out[nm + ".s"] = ("leaf", m and spec.get("mi", True))
     if spec.get("lst"):
         for i in range(2):
-            out["l[%d]" % i] = ("leaf", spec["lst"] == "rand")
+            out["l[%d]" % i] = ("leaf", spec["lst"] in ("rand", "randsz"))
     return out
 
 
@@ -209,6 +226,12 @@ def constraints_hold(spec, v, inline=None):
         elif c == "K6":
             if not v["l[0].y"] != v["l[1].y"]:
                 return False
+        elif c == "K7":
+            for i in (0, 1):
+                if (v["l[%d].y" % i] == 3) != (v["n"] == 0):
+                    return False
+        elif c == "K8":
+            pass
     if inline == "a==1":
         if v["a"] != 1:
             return False
@@ -245,8 +268,14 @@ def all_specs(tier):
                         menu += [("K3",), ("K4",), ("K6",), ("K3", "K2")]
                     if kind == "mid":
                         menu += [("K5",), ("K5", "K1")]
+                    if lst == "rand":
+                        menu += [("K7",), ("K7", "K1")]
                     for cons in menu:
                         specs.append({"kind": kind, "m1": m1, "m2": m2, "mi": mi, "lst": lst, "cons": cons, "pre_n": None})
+                if kind == "leaf":
+                    # random-size list of objects (size pinned to its two elements)
+                    for cons in (("K8",), ("K8", "K6")):
+                        specs.append({"kind": kind, "m1": m1, "m2": m2, "mi": mi, "lst": "randsz", "cons": cons, "pre_n": None})
     return specs
 
 
